@@ -295,7 +295,7 @@ class Spelling:
         return "Spelling(%s)" % ",".join("%s=%r" % (s, getattr(self, s)) for s in self.__slots__)
 
 
-DECLS = ("", '<?xml version="1.0"?>\n', "<?xml version='1.0' ?>")
+DECLS = ("", '<?xml version="1.0"?>\n', "<?xml version='1.0' ?>", '<?xml version="1.0" encoding="UTF-8"?>\n')
 EMPTY = ("/>", " />", "></%s>")
 
 
@@ -346,7 +346,7 @@ def spellings(tier="quick"):
     """Pairwise-ish set of spellings for quick, full product for thorough."""
     if tier == "thorough":
         for decl, indent, quote, rev, empty, numeric, cdata, pad in itertools.product(
-            range(3), (0, 1), ('"', "'"), (0, 1), range(3), (0, 1), (0, 1), (0, 1)
+            range(4), (0, 1), ('"', "'"), (0, 1), range(3), (0, 1), (0, 1), (0, 1)
         ):
             if cdata and numeric:
                 continue
@@ -361,3 +361,4 @@ def spellings(tier="quick"):
     yield Spelling(1, 0, '"', 0, 0, 0, 1, 1, 0)
     yield Spelling(2, 1, "'", 0, 1, 1, 0, 1, 1)
     yield Spelling(0, 0, "'", 1, 0, 0, 0, 1, 0)
+    yield Spelling(3, 0, '"', 0, 1, 0, 0, 0, 1)
